@@ -1,9 +1,252 @@
 (* C02  Discovery returns exactly the in-range matching attributes.
-   Statements only; proofs live in AttSrv/AttSrvProofsC02.v. *)
-From BT Require Import Base.ListX AttDb.AttDbModel AttDb.AttDbSpec AttDb.AttDbExamples NQueue.NQueueModel
-  AttSrv.AttSrvModel AttSrv.AttSrvSpecC02 AttSrv.AttSrvExamplesDisc.
+   Statements only; proofs live in AttSrv/AttSrvProofsC02.v.
+
+   Spec (AttSrvSpecC02.v): [table c] = the declared attributes in declaration order with the handles the
+   declaration assigns (AttDbSpec.assign: next = max( previous + 1, requested )); [matching c k lo hi] = its
+   entries with lo <= handle <= hi and the requested type (KInfo: all; KType ty: that 16 / 128 bit type;
+   KGroup: primary service declarations); [discover_all]: the client procedure that re-issues the request
+   behind the last returned handle. The model is coq/AttSrv/AttSrvModel.v after the repairs of branch
+   fix/C02-C03-discovery (ending handles compared as handles, Attribute Not Found for an empty Find
+   Information list, 128 bit types in Read By Type). NOT repaired, hence transcribed (baseline unit tests
+   require the behaviour): Find Information / Read By Type SKIP an attribute of the other uuid format /
+   another value length and go on - statements (a)/(c) are refuted for them and the rest is proved.
+   All theorems: for EVERY configuration with wf c (any number of services and characteristics, any fixed
+   handles and gaps) without include_service<> (C04's finding), every (lo, hi), every type, every
+   out_size >= 23 (every MTU), every state. *)
+From BT Require Import Base.ListX AttDb.AttDbModel AttDb.AttDbSpec AttDb.AttDbProofs AttDb.AttDbExamples NQueue.NQueueModel
+  AttSrv.AttSrvModel AttSrv.AttSrvSpecC02 AttSrv.AttSrvSpecC03 AttSrv.AttSrvProofsC02 AttSrv.AttSrvExamplesDisc.
 Local Open Scope N_scope.
 
-(* ---- non-vacuity *)
-Example C02_wf_nonvacuous : wf cfg_disc_gap_first /\ wf cfg_disc_sec_mix /\ wf cfg_disc_sec128 /\ wf cfg_disc_uniform.
+(* ---- (c), abstract: ANY responder that answers every lo..hi with a non-empty prefix of the in-range
+   elements of a strictly increasing handle list (and a handle to continue behind), or with "not found"
+   exactly if there is none, is enumerated exactly by the client procedure with fuel > number of elements *)
+Theorem C02_discover_all_enumerates :
+  forall l hi r,
+    increasing_from 0 l = true -> (forall h, In h l -> h <= 65535) -> good_responder l hi r ->
+    forall fuel lo, 1 <= lo -> (length (hrange l lo hi) < fuel)%nat -> discover_all fuel r lo hi = hrange l lo hi.
+Proof. exact discover_all_enumerates. Qed.
+Print Assumptions C02_discover_all_enumerates.
+
+(* ---- the model reads the table: index based accessors of the code = the declaration *)
+Theorem C02_model_reads_the_table :
+  forall c i, wf c -> no_includes c -> i < number_of_attributes c ->
+    exists a, attribute_at c i = Some a /\ nth_error (table c) (N.to_nat i) = Some (handle_by_index c i, erase a).
+Proof. exact table_nth. Qed.
+Print Assumptions C02_model_reads_the_table.
+
+(* ---- what "the returned handles are a subsequence of the matching handles" (Find Information, Read By
+   Type below) amounts to: strictly ascending, every handle in lo..hi and the handle of a declared attribute
+   of the requested type *)
+Theorem C02_subsequence_of_matching :
+  forall c k lo hi hs, wf c -> no_includes c -> subseq hs (map fst (matching c k lo hi)) ->
+    increasing_from 0 hs = true
+    /\ forall h, In h hs -> in_range lo hi h = true /\ exists a, In (h, a) (table c) /\ type_matches k a = true.
+Proof. exact subseq_of_matching. Qed.
+Print Assumptions C02_subsequence_of_matching.
+
+(* ---- Read By Group Type <<Primary Service>>: (a), (b), (c) in full.
+   The response is determined by W = walk_first ..: Attribute Not Found if W = [], else the encoding of W *)
+Theorem C02_read_by_group_type_response :
+  forall c a0 a1 x0 x1 b out_size r,
+    wf c -> no_includes c -> a0 < 256 -> a1 < 256 -> x0 < 256 -> x1 < 256 ->
+    1 <= w16 a0 a1 -> w16 a0 a1 <= w16 x0 x1 -> 23 <= out_size -> out_size <= len b ->
+    handle_read_by_group_type c [16; a0; a1; x0; x1; 0; 40] b out_size = Some r ->
+    rbg_response (walk_first (groups c) (w16 a0 a1) (w16 x0 x1) (out_size - 2)) a0 a1 out_size r.
+Proof. exact read_by_group_type_spec. Qed.
+Print Assumptions C02_read_by_group_type_response.
+
+(* W is a prefix of [matching c KGroup lo hi], empty only if that is empty *)
+Theorem C02_read_by_group_type_prefix_of_matching :
+  forall c lo hi out_size, wf c -> no_includes c -> 23 <= out_size ->
+    let W := walk_first (groups c) lo hi (out_size - 2) in
+    exists rest, matching c KGroup lo hi = map gentry W ++ map gentry rest
+                 /\ (W = [] -> matching c KGroup lo hi = []).
+Proof.
+  intros c lo hi out_size Hw Hn Ho W.
+  destruct (walk_first_spec (groups c) lo hi (out_size - 2) ltac:(lia)) as (rest & W1 & W2 & _).
+  exists rest. rewrite matching_groups by auto. fold W in W1, W2. split.
+  - rewrite W1, map_app. reflexivity.
+  - intros E. rewrite W2 by exact E. reflexivity.
+Qed.
+Print Assumptions C02_read_by_group_type_prefix_of_matching.
+
+Theorem C02_read_by_group_type_discover_all :
+  forall c out_size hi, wf c -> no_includes c -> 23 <= out_size ->
+    forall lo, 1 <= lo ->
+      discover_all (S (length (groups c))) (rbg_responder c out_size) lo hi = hrange (primary_starts c) lo hi.
+Proof. exact rbg_discover_all. Qed.
+Print Assumptions C02_read_by_group_type_discover_all.
+
+(* ---- Find Information: (b) in full; (a) as far as it holds: the response holds the FIRST matching
+   attribute, then a subsequence of the remaining ones (hence in range, with their types, ascending), and
+   it is a prefix if the matching attributes all have the uuid format of the first; (c) if no attribute has
+   a 128 bit type *)
+Theorem C02_find_information_partial :
+  forall c a0 a1 x0 x1 b out_size r,
+    wf c -> no_includes c -> a0 < 256 -> a1 < 256 -> x0 < 256 -> x1 < 256 ->
+    1 <= w16 a0 a1 -> w16 a0 a1 <= w16 x0 x1 -> 23 <= out_size -> out_size <= len b ->
+    handle_find_information c [4; a0; a1; x0; x1] b out_size = Some r ->
+    match matching c KInfo (w16 a0 a1) (w16 x0 x1) with
+    | [] => snd r = 5 /\ seg 0 5 (fst r) = [1; 4; a0; a1; 10]
+    | x :: M =>
+        exists R, subseq R M
+          /\ snd r <= out_size /\ snd r <= len (fst r)
+          /\ seg 0 (snd r) (fst r) = 5 :: info_hdr x :: flat_map fenc (x :: R)
+          /\ ((forall y, In y M -> is16 (snd y) = is16 (snd x)) -> exists rest, M = R ++ rest)
+    end.
+Proof. exact find_information_matching. Qed.
+Print Assumptions C02_find_information_partial.
+
+Theorem C02_find_information_discover_all_16bit :
+  forall c out_size hi, wf c -> no_includes c -> 23 <= out_size ->
+    (forall x, In x (table c) -> is16 (snd x) = true) ->
+    forall lo, 1 <= lo ->
+      discover_all (S (length (assign c))) (fi_responder c out_size) lo hi = hrange (assign c) lo hi.
+Proof. exact fi_discover_all. Qed.
+Print Assumptions C02_find_information_discover_all_16bit.
+
+(* (c) in full for Find Information is false: cfg_basic3 has a 128 bit characteristic value at handle 5 (and
+   13); a client never sees them *)
+Definition C02_find_information_discover_all_full : Prop :=
+  forall c out_size hi, wf c -> no_includes c -> 23 <= out_size ->
+    forall lo, 1 <= lo ->
+      discover_all (S (length (assign c))) (fi_responder c out_size) lo hi = hrange (assign c) lo hi.
+
+Theorem C02_find_information_discover_all_refuted : ~ C02_find_information_discover_all_full.
+Proof.
+  intros H. specialize (H cfg_basic3 23 65535 ltac:(vm_compute; reflexivity) ltac:(vm_compute; reflexivity)
+                          ltac:(vm_compute; intros X; discriminate X) 1 ltac:(vm_compute; intros X; discriminate X)).
+  vm_compute in H. discriminate H.
+Qed.
+Print Assumptions C02_find_information_discover_all_refuted.
+
+(* ---- Read By Type: what holds of the code as it is (out_size <= 257; any type but the marker 0x0001) *)
+Theorem C02_read_by_type_partial :
+  forall c st cid a0 a1 x0 x1 tyb ty b out_size st' r,
+    wf c -> no_includes c -> a0 < 256 -> a1 < 256 -> x0 < 256 -> x1 < 256 ->
+    req_type tyb = Some ty -> ty <> U16 internal_128bit_uuid ->
+    1 <= w16 a0 a1 -> w16 a0 a1 <= w16 x0 x1 -> 23 <= out_size -> out_size <= 257 -> out_size <= len b ->
+    handle_read_by_type c st cid (8 :: a0 :: a1 :: x0 :: x1 :: tyb) b out_size = Some (st', r) ->
+    (snd r = 5 /\ seg 0 5 (fst r) = [1; 8; a0; a1; 10])
+    \/ (exists E sz, E <> [] /\ subseq (map fst E) (map fst (matching c (KType ty) (w16 a0 a1) (w16 x0 x1)))
+          /\ (forall x, In x E -> len (snd x) + 2 = sz)
+          /\ snd r <= out_size /\ snd r <= len (fst r)
+          /\ seg 0 (snd r) (fst r) = 9 :: sz :: flat_map ebytes E).
+Proof. exact read_by_type_partial. Qed.
+Print Assumptions C02_read_by_type_partial.
+
+Theorem C02_read_by_type_not_found_if_none :
+  forall c st cid a0 a1 x0 x1 tyb ty b out_size st' r,
+    wf c -> no_includes c -> a0 < 256 -> a1 < 256 -> x0 < 256 -> x1 < 256 ->
+    req_type tyb = Some ty -> ty <> U16 internal_128bit_uuid ->
+    1 <= w16 a0 a1 -> w16 a0 a1 <= w16 x0 x1 -> 23 <= out_size -> out_size <= 257 -> out_size <= len b ->
+    handle_read_by_type c st cid (8 :: a0 :: a1 :: x0 :: x1 :: tyb) b out_size = Some (st', r) ->
+    matching c (KType ty) (w16 a0 a1) (w16 x0 x1) = [] ->
+    snd r = 5 /\ seg 0 5 (fst r) = [1; 8; a0; a1; 10].
+Proof. exact read_by_type_not_found_if_none. Qed.
+Print Assumptions C02_read_by_type_not_found_if_none.
+
+(* (b), the other direction, as far as the code supports it: if some matching attribute is readable in every
+   state ([readable]: no encryption requirement, read access), the request is answered with a Read By Type
+   Response, never with Attribute Not Found - in every reachable or unreachable state, for every out_size *)
+Theorem C02_read_by_type_answers_readable :
+  forall c st cid kk a0 a1 x0 x1 tyb ty b out_size st' r,
+    wf c -> no_includes c -> get_conn st cid = Some kk ->
+    a0 < 256 -> a1 < 256 -> x0 < 256 -> x1 < 256 ->
+    req_type tyb = Some ty -> ty <> U16 internal_128bit_uuid ->
+    1 <= w16 a0 a1 -> w16 a0 a1 <= w16 x0 x1 -> 23 <= out_size -> out_size <= len b ->
+    handle_read_by_type c st cid (8 :: a0 :: a1 :: x0 :: x1 :: tyb) b out_size = Some (st', r) ->
+    existsb (fun x => readable c (snd x)) (matching c (KType ty) (w16 a0 a1) (w16 x0 x1)) = true ->
+    1 <= snd r /\ nth 0 (fst r) 0 = 9.
+Proof. exact read_by_type_answers_readable. Qed.
+Print Assumptions C02_read_by_type_answers_readable.
+
+(* ---- the full statement: the executable monitor (all clauses, including prefix_of_matching and
+   enumerate_exact) accepts every trace of the model. FALSE of the code as it is: *)
+Definition C02_monitor_accepts_model_full : Prop :=
+  forall c ops, wf c -> no_includes c -> c02_monitor c (srv_run c (srv_init c) ops) = None.
+
+(* Find Information 3..11 on cfg_basic3: the 128 bit value at 5 is left out, 6 7 8 follow *)
+Theorem C02_prefix_find_information_refuted : ~ C02_monitor_accepts_model_full.
+Proof.
+  intros H. specialize (H cfg_basic3 [OpIn O [4; 3; 0; 11; 0] 64] ltac:(vm_compute; reflexivity) ltac:(vm_compute; reflexivity)).
+  vm_compute in H. discriminate H.
+Qed.
+Print Assumptions C02_prefix_find_information_refuted.
+
+(* Read By Type 0x2a00 on cfg_disc_gap_first: values of length 1, 2, 1 at handles 7, 9, 11; 9 is left out *)
+Theorem C02_prefix_read_by_type_refuted :
+  map fst (matching cfg_disc_gap_first (KType (U16 10752)) 1 65535) = [7; 9; 11]
+  /\ (exists st', att_input cfg_disc_gap_first (srv_init cfg_disc_gap_first) O [8; 1; 0; 255; 255; 0; 42] 64
+                  = Some (st', [9; 3; 7; 0; 1; 11; 0; 75]))
+  /\ c02_monitor cfg_disc_gap_first (srv_run cfg_disc_gap_first (srv_init cfg_disc_gap_first) [OpIn O [8; 1; 0; 255; 255; 0; 42] 64])
+     = Some (O, dt_prefix).
+Proof. split; [vm_compute; reflexivity|]. split; [eexists; vm_compute; reflexivity|vm_compute; reflexivity]. Qed.
+Print Assumptions C02_prefix_read_by_type_refuted.
+
+(* ---- non-vacuity and witnesses of the repairs *)
+Example C02_wf_nonvacuous :
+  wf cfg_basic3 /\ no_includes cfg_basic3 /\ wf cfg_fixed_handles /\ no_includes cfg_fixed_handles
+  /\ wf cfg_disc_gap_first /\ no_includes cfg_disc_gap_first /\ wf cfg_disc_uniform /\ no_includes cfg_disc_uniform.
 Proof. repeat split; vm_compute; reflexivity. Qed.
+
+Example C02_uniform_premise_satisfiable : forallb (fun x => is16 (snd x)) (table cfg_disc_uniform) = true.
+Proof. vm_compute. reflexivity. Qed.
+
+Example C02_table_fixed_handles :
+  map fst (table cfg_fixed_handles) = [3; 5; 6; 9; 12; 15; 20; 22; 23; 24; 25; 26; 27; 28; 64; 80; 128; 256; 257; 258].
+Proof. vm_compute. reflexivity. Qed.
+
+(* fixed_handles: Find Information 7..7 (a gap) and 1..2 (in front of the first attribute): Attribute Not
+   Found; Read By Group Type 0x19..0x1a does not report the service at 0x80; Read By Type <<Characteristic>>
+   16..19 does not report the declaration at 20 *)
+Example C02_repaired_ending_handles :
+  exists s1 s2 s3 s4,
+    att_input cfg_fixed_handles (srv_init cfg_fixed_handles) O [4; 7; 0; 7; 0] 23 = Some (s1, [1; 4; 7; 0; 10])
+    /\ att_input cfg_fixed_handles s1 O [4; 1; 0; 2; 0] 23 = Some (s2, [1; 4; 1; 0; 10])
+    /\ att_input cfg_fixed_handles s2 O [16; 25; 0; 26; 0; 0; 40] 23 = Some (s3, [1; 16; 25; 0; 10])
+    /\ att_input cfg_fixed_handles s3 O [8; 16; 0; 19; 0; 3; 40] 23 = Some (s4, [1; 8; 16; 0; 10]).
+Proof. do 4 eexists. repeat split; vm_compute; reflexivity. Qed.
+
+(* a 128 bit type finds the characteristic value; the marker 0x0001 finds nothing *)
+Example C02_repaired_128bit_type :
+  exists s1 s2,
+    att_input cfg_basic3 (srv_init cfg_basic3) O
+      [8; 1; 0; 255; 255; 1; 0; 199; 91; 237; 78; 138; 162; 159; 73; 226; 13; 148; 64; 139; 140] 23 = Some (s1, [9; 4; 5; 0; 38; 49])
+    /\ att_input cfg_basic3 s1 O [8; 1; 0; 255; 255; 1; 0] 23 = Some (s2, [1; 8; 1; 0; 10]).
+Proof. do 2 eexists. split; vm_compute; reflexivity. Qed.
+
+Example C02_discover_all_uniform :
+  discover_all 17 (fi_responder cfg_disc_uniform 23) 1 65535 = [1; 2; 3; 4; 5; 6; 7; 8; 9; 10; 11; 12; 13; 14; 15; 16]
+  /\ discover_all 5 (rbg_responder cfg_disc_uniform 23) 1 65535 = [1; 9; 16].
+Proof. split; vm_compute; reflexivity. Qed.
+
+(* the monitor is not trivially accepting *)
+Example C02_monitor_rejects :
+  c02_monitor cfg_fixed_handles [(OpIn O [4; 7; 0; 7; 0] 23, OBytes [5; 1])] = Some (O, dt_not_found)
+  /\ c02_monitor cfg_fixed_handles [(OpIn O [16; 25; 0; 26; 0; 0; 40] 23, OBytes [17; 6; 128; 0; 2; 1; 18; 24])] = Some (O, dt_in_range)
+  /\ c02_monitor cfg_basic3 [(OpIn O [8; 1; 0; 255; 255; 1; 0] 23, OBytes [9; 4; 5; 0; 38; 49])] = Some (O, dt_type_match)
+  /\ c02_monitor cfg_basic3 [(OpIn O [4; 1; 0; 255; 255] 23, OBytes [5; 1; 2; 0; 3; 40; 1; 0; 0; 40])] = Some (O, dt_ascending)
+  /\ c02_monitor cfg_basic3 [(OpIn O [4; 1; 0; 255; 255] 23, OBytes [5; 1; 1; 0; 0; 40; 3; 0; 0; 42])] = Some (O, dt_prefix)
+  /\ c02_monitor cfg_basic3 [(OpIn O [4; 1; 0; 255; 255] 23, OBytes [1; 4; 1; 0; 10])] = Some (O, dt_not_found)
+  /\ c02_monitor cfg_basic3 [(OpIn O [4; 0; 0; 255; 255] 23, OBytes [1; 4; 0; 0; 10])] = Some (O, dt_invalid_range).
+Proof. repeat split; vm_compute; reflexivity. Qed.
+
+(* a session that ends too early is rejected (enumerate_exact), the complete one is accepted *)
+Example C02_monitor_session :
+  c02_monitor cfg_disc_uniform
+    [(OpIn O [16; 1; 0; 255; 255; 0; 40] 23, OBytes [17; 6; 1; 0; 8; 0; 48; 24; 9; 0; 12; 0; 49; 24]);
+     (OpIn O [16; 13; 0; 255; 255; 0; 40] 23, OBytes [17; 6; 16; 0; 16; 0; 51; 24]);
+     (OpIn O [16; 17; 0; 255; 255; 0; 40] 23, OBytes [1; 16; 17; 0; 10])] = None
+  /\ c02_monitor cfg_disc_uniform
+    [(OpIn O [16; 1; 0; 255; 255; 0; 40] 23, OBytes [17; 6; 1; 0; 8; 0; 48; 24; 9; 0; 12; 0; 49; 24]);
+     (OpIn O [16; 13; 0; 255; 255; 0; 40] 23, OBytes [1; 16; 13; 0; 10])] = Some (1%nat, dt_not_found).
+Proof. split; vm_compute; reflexivity. Qed.
+
+(* constants of the model are the ones of codes.hpp *)
+From BT Require gen.GenAttSrv.
+Example C02_constants_are_the_codes :
+  GenAttSrv.opcode_find_information_request = 4 /\ GenAttSrv.opcode_read_by_type_request = 8
+  /\ GenAttSrv.opcode_read_by_group_type_request = 16
+  /\ GenAttSrv.att_error_attribute_not_found = err_attribute_not_found /\ GenAttSrv.att_error_invalid_handle = err_invalid_handle.
+Proof. repeat split; reflexivity. Qed.
